@@ -71,8 +71,10 @@ def check_classes(rule, prog, which, fn_line):
     def fmt(s):
         return " ".join("U+%04X" % ord(c) for c in sorted(s))
     spec = {
-        "is_vowel": (INDEP11 | SIGNS10, ALL_INDEP | ALL_SIGNS, "independent vowels and vowel signs"),
-        "is_kar": (SIGNS10, ALL_SIGNS, "the ten vowel signs"),
+        # every vowel letter and vowel sign of the Bengali block (the bundled layout types all of them); the AU length mark U+09D7 is no
+        # vowel sign (it has a rule of its own) and may or may not be in the classes
+        "is_vowel": (ALL_INDEP | (ALL_SIGNS - {"\u09d7"}), ALL_INDEP | ALL_SIGNS, "independent vowels and vowel signs (Sanskrit ones included)"),
+        "is_kar": (ALL_SIGNS - {"\u09d7"}, ALL_SIGNS, "the vowel signs া…ৄ ে ৈ ো ৌ ৢ ৣ"),
         "is_pure_consonant": (CONSONANTS, ALL_CONS, "consonants ক..হ ড় ঢ় য় ৎ"),
         "is_ligature_making_kar": (LIGATURE, LIGATURE, "exactly ু ূ ৃ"),
         "is_left_standing_kar": (LEFT_STANDING, LEFT_STANDING, "exactly ি ে ৈ"),
